@@ -38,7 +38,7 @@ func vpGenSteps(depth, max int) (steps pipeline.Steps, infos []*vpStepInfo, unkn
 		case 0:
 			in := &vpStepInfo{command: vpStr(1, "a-b"), label: "l"}
 			c := &pipeline.CommandStep{Command: in.command, Label: in.label}
-			if vpBool() {
+			if vpParam("lite") == 0 && vpBool() {
 				c.Env = map[string]string{}
 				if in.hasA = vpBool(); in.hasA {
 					in.envA = vpStr(1, "x-y")
@@ -49,7 +49,7 @@ func vpGenSteps(depth, max int) (steps pipeline.Steps, infos []*vpStepInfo, unkn
 					c.Env["B"] = in.envB
 				}
 			}
-			if vpBool() {
+			if vpParam("lite") == 0 && vpBool() {
 				in.plugin = &pipeline.Plugin{Source: "p", Config: map[string]any{"k": vpStr(1, "x-y")}}
 				c.Plugins = pipeline.Plugins{in.plugin}
 			}
@@ -81,7 +81,7 @@ func vpH_c06_signsteps() {
 
 	// pipeline env: A and/or B
 	penv := map[string]string{}
-	pA, pB := vpBool(), vpBool()
+	pA, pB := vpBool(), vpParam("lite") == 0 && vpBool()
 	vA, vB := vpStr(1, "x-y"), vpStr(1, "x-y")
 	if pA {
 		penv["A"] = vA
@@ -94,7 +94,11 @@ func vpH_c06_signsteps() {
 	var key Key
 	var keySet any
 	alg := ""
-	switch vpInt(0, 3) {
+	nalg := 3
+	if vpParam("lite") != 0 {
+		nalg = 0
+	}
+	switch vpInt(0, nalg) {
 	case 0:
 		alg = "EdDSA"
 	case 1:
